@@ -261,6 +261,41 @@ theorem bounds_select_band_no_ub (Fs : ℚ) (hFs : 0 ≤ Fs) (N : ℕ) (lb : ℚ
 example : getBounds (trueOneSided 10 5) 2 (some 4) = (1, 3) ∧ sliceBand (trueOneSided 10 5) 2 (some 4) = [2, 4] := by
   decide +kernel
 
+/-- **band selection = filter** on the true one-sided grid (`Fs ≥ 0`): the frequencies
+`get_bounds` + slice keep are exactly the `k·Fs/N` with `lb ≤ k·Fs/N ≤ ub`, in order — and nothing
+when `lb > ub` -/
+theorem band_is_filter_of_true_grid (Fs : ℚ) (hFs : 0 ≤ Fs) (N : ℕ) (lb ub : ℚ) :
+    sliceBand (trueOneSided Fs N) lb (some ub)
+      = ((List.range (N / 2 + 1)).filter
+          (fun (k : ℕ) => lb ≤ (k : ℚ) * Fs / (N : ℚ) ∧ (k : ℚ) * Fs / (N : ℚ) ≤ ub)).map
+          (fun (k : ℕ) => (k : ℚ) * Fs / (N : ℚ)) := by
+  rw [sliceBand_eq_filter _ (trueOneSided_sorted Fs hFs N)]
+  unfold trueOneSided
+  rw [List.filter_map]
+  rfl
+
+/-- the same without an upper bound -/
+theorem band_is_filter_of_true_grid_no_ub (Fs : ℚ) (hFs : 0 ≤ Fs) (N : ℕ) (lb : ℚ) :
+    sliceBand (trueOneSided Fs N) lb none
+      = ((List.range (N / 2 + 1)).filter (fun (k : ℕ) => lb ≤ (k : ℚ) * Fs / (N : ℚ))).map
+          (fun (k : ℕ) => (k : ℚ) * Fs / (N : ℚ)) := by
+  rw [sliceBand_none_eq_filter _ (trueOneSided_sorted Fs hFs N)]
+  unfold trueOneSided
+  rw [List.filter_map]
+  rfl
+
+/-- an inverted band (`lb > ub`) selects nothing, on any sorted grid -/
+theorem band_empty_of_inverted (f : List ℚ) (hs : f.Pairwise (· ≤ ·)) (lb ub : ℚ) (h : ub < lb) :
+    sliceBand f lb (some ub) = [] := by
+  rw [sliceBand_eq_filter f hs, List.filter_eq_nil_iff]
+  intro x _
+  simp only [decide_eq_true_eq, not_and, not_le]
+  intro h1
+  exact h.trans_le h1
+
+example : sliceBand (trueOneSided 10 5) 3 (some 1) = [] ∧ sliceBand (trueOneSided 10 5) 2 (some 2) = [2] ∧
+    sliceBand (trueOneSided 10 5) 7 none = [] := by decide +kernel
+
 /-- `cache_fft(…, lb, ub)` caches the band `[lb_idx, ub_idx)` but returns ALL frequencies next to it;
 after the repair (`return freqs[lb_idx:ub_idx], cache`) this becomes
 `theorem cache_fft_returns_band : Grids.cache_fft_sliced = some true := rfl` -/
